@@ -7,6 +7,7 @@ CONSTANTS
   KwKinds = {"handled", "override", "default"}
   KwShapes = {"40", "3x40", "40x3", "2x3"}
   KwDC = {"plain", "ties", "nan"}
+  AliasCombos <- CombosAll
 INIT Init
 NEXT Next
 INVARIANT Export
